@@ -328,6 +328,16 @@ func runC06(c *Cfg) {
 			}
 		}
 	}
+	// a batch of exactly one item, which fails: an item failure is an outcome for post to look at, not the end of the run
+	for _, cc := range []int{0, 1, 3} {
+		for _, stop := range []bool{false, true} {
+			for _, budget := range []int{1, 2} {
+				for bi, b := range []string{"builder", "options", "compose"} {
+					sc = append(sc, &BatchCase{Family: "single-failing-item", N: 1, C: cc, Budget: budget, Stop: stop, SetMode: true, FB: bi == 1 && budget == 2, Items: []ItemScript{{K: budget + 1, FBE: true}}, Shape: "results", Build: b, ExecStyle: []string{"result", "any"}[(cc+bi)%2]})
+				}
+			}
+		}
+	}
 	// stop mode with item lists that are not []Result (plain lists through the constructor-option prep): post still
 	// receives every item prep produced, in order — also the ones behind the stop
 	for _, sh := range []string{"any", "ints", "strings", "maps", "ptrs", "named"} {
@@ -1152,8 +1162,9 @@ func runC09(c *Cfg) {
 		for cc := 0; cc <= 4; cc++ {
 			for f := 0; f < n; f++ { // position of the first failing item
 				for _, stop := range []bool{true, false} {
-					for variant := 0; variant < 4; variant++ {
+					for variant := 0; variant < 5; variant++ {
 						// variant 0: only f fails; 1: f and a later item fail; 2: retries (budget 2, f fails both); 3: fallback installed, fails for f
+						// 4: fallback installed and it RESCUES f (and f+2): nothing has failed, nothing stops
 						it := make([]ItemScript, n)
 						budget := 1
 						fb := false
@@ -1183,6 +1194,12 @@ func runC09(c *Cfg) {
 							it[f].K, it[f].FBE = 2, true
 							if f+1 < n {
 								it[f+1].K = 2 // rescued by the fallback: not a failure
+							}
+						case 4:
+							fb = true
+							it[f].K = 2
+							if f+2 < n {
+								it[f+2].K = 2
 							}
 						}
 						build := "builder"
